@@ -138,8 +138,10 @@ func (impl Implementation) Dggsvp3(jobU, jobV, jobQ lapack.GSVDJob, m, p, n int,
 	}
 	impl.Dgeqp3(p, n, b, ldb, iwork, tau, work, lwork)
 
-	// Update A := A*P.
-	impl.Dlapmt(forward, m, n, a, lda, iwork)
+	// Update A := A*P. If p == 0, Dgeqp3 has left iwork untouched and P = I.
+	if p > 0 {
+		impl.Dlapmt(forward, m, n, a, lda, iwork)
+	}
 
 	// Determine the effective rank of matrix B.
 	for i := 0; i < min(p, n); i++ {
@@ -171,7 +173,9 @@ func (impl Implementation) Dggsvp3(jobU, jobV, jobQ lapack.GSVDJob, m, p, n int,
 	if wantq {
 		// Set Q = I and update Q := Q*P.
 		impl.Dlaset(blas.All, n, n, 0, 1, q, ldq)
-		impl.Dlapmt(forward, n, n, q, ldq, iwork)
+		if p > 0 {
+			impl.Dlapmt(forward, n, n, q, ldq, iwork)
+		}
 	}
 
 	if p >= l && n != l {
@@ -230,8 +234,9 @@ func (impl Implementation) Dggsvp3(jobU, jobV, jobQ lapack.GSVDJob, m, p, n int,
 		impl.Dorg2r(m, m, k, u, ldu, tau[:k], work)
 	}
 
-	if wantq {
-		// Update Q[0:n, 0:n-l] := Q[0:n, 0:n-l]*P1.
+	if wantq && m > 0 {
+		// Update Q[0:n, 0:n-l] := Q[0:n, 0:n-l]*P1. If m == 0, Dgeqp3 has
+		// left iwork untouched and P1 = I.
 		impl.Dlapmt(forward, n, n-l, q, ldq, iwork[:n-l])
 	}
 
